@@ -211,10 +211,11 @@ Definition single_tail (raw : str) (is_text : bool) : list str :=
 
 (** disposition list of buildPartStructure: NIL or (TYPE params); a
     Content-Disposition that mime.ParseMediaType rejects arrives here as
-    [Some ([], [])] and is printed (NIL NIL) *)
+    [Some ([], _)] and is NIL since fix c1eb865 (it used to be printed (NIL NIL)) *)
 Definition disp_list (disp : option (str * list (str * str))) : str :=
   match disp with
   | None => NIL
+  | Some ([], _) => NIL
   | Some (t, ps) => [LP] ++ quote_or_nil (to_upper t) ++ [SP] ++ build_param_list ps ++ [RP]
   end.
 
@@ -277,8 +278,7 @@ Inductive finding :=
 | flag_atom          (* a stored flag containing a parenthesis / quote / brace *)
 | item_suppressed    (* a requested item is not answered because of substring cross-talk *)
 | rfc822_renamed     (* RFC822 is answered under the name BODY[] *)
-| partial_range      (* <a.b>: origin not reported / range ignored / applied to BODY[TEXT] of another item *)
-| disposition_nil.   (* an unparsable Content-Disposition is printed (NIL NIL) *)
+| partial_range.     (* <a.b>: origin not reported / range ignored / applied to BODY[TEXT] of another item *)
 
 Definition clean (s : str) : bool :=
   forallb (fun c => negb (Ascii.eqb c CR) && negb (Ascii.eqb c LF)) s.
@@ -293,9 +293,3 @@ Definition flag_byte (c : ascii) : bool :=
 
 Definition classify_flags (flags : str) : option finding :=
   if forallb flag_byte flags then None else Some flag_atom.
-
-Definition classify_disp (disp : option (str * list (str * str))) : option finding :=
-  match disp with
-  | Some ([], _) => Some disposition_nil
-  | _ => None
-  end.
